@@ -266,15 +266,6 @@ def reset : Gen → Gen × Int
     | .err _ => (g, Err.BadValue.code)
     | .ok v rest => (.values text (some rest) v, 0)
 
-/-- `clone()`: `none` = NULL (the polynomial generator has no clone) -/
-def clone : Gen → Option Gen
-  | g@(.linear ..) => some g
-  | g@(.factor ..) => some g
-  | g@(.boundary ..) => some g
-  | .poly .. => none
-  | .polyN .. => none
-  | g@(.values ..) => some g
-
 end Gen
 
 /-! ### creation from text -/
@@ -326,6 +317,16 @@ def linArgs (s : List Char) : Option Gen :=
 /-- the default generator `_mpt_iterator_range(0)`: 0, 0.1, …, 1 -/
 def defaultRange : Gen := .linear 0 (1 / 10) 11 0
 
+/-- tolerance of the step count of a range: `8·DBL_EPSILON` -/
+def rangeTol : Rat := 1 / ((2 ^ 49 : Nat) : Rat)
+
+/-- number of whole steps of a range: `(max − min)/step` truncated; a quotient that falls short of the next
+    whole number by no more than the tolerance counts as that number (fix in /repo: the quotient of rounded
+    operands, e.g. 0.3/0.1, used to lose the last element) -/
+def rangeSteps (mn mx step : Rat) : Nat :=
+  let k := ((mx - mn) / step).floor.toNat
+  if ((k + 1 : Nat) : Rat) - (mx - mn) / step ≤ ((k + 1 : Nat) : Rat) * rangeTol then k + 1 else k
+
 /-- optional `: step` group of the range description -/
 def rangeStep (s1 : List Char) (dflt : Rat) : Option (Rat × List Char) :=
   if nextIs s1 ':' then
@@ -336,7 +337,8 @@ def rangeStep (s1 : List Char) (dflt : Rat) : Option (Rat × List Char) :=
   else some (dflt, s1)
 
 /-- `_mpt_iterator_range` with a text argument: `( a b [: step] )`.
-    A step that is not positive is refused (fix in /repo: a range of width 0 used to divide 0 by 0). -/
+    A step that is not positive is refused (fix in /repo: a range of width 0 used to divide 0 by 0); a step
+    that exceeds the width by no more than the tolerance is a single step (fix in /repo). -/
 def rangeArgs (s : List Char) : Option Gen :=
   match nextvis s with
   | .error _ => none
@@ -349,8 +351,8 @@ def rangeArgs (s : List Char) : Option Gen :=
       | none => none
       | some (step, s2) =>
         if !nextIs s2 ')' then none
-        else if ¬ (0 < step) ∨ mx - mn < step ∨ step < (mx - mn) * (1 / 1000000) then none
-        else some (.linear mn step (wrap32 (((mx - mn) / step).floor.toNat + 1)) 0)
+        else if ¬ (0 < step) ∨ (mx - mn) * (1 + rangeTol) < step ∨ step < (mx - mn) * (1 / 1000000) then none
+        else some (.linear mn step (wrap32 (rangeSteps mn mx step + 1)) 0)
 
 /-- the optional `: number` group used three times by the factor description: value (default kept when
     the number is absent) and position; `none` = conversion error -/
@@ -416,6 +418,23 @@ def mkValues (s : List Char) : Option Gen :=
   match cdouble s with
   | .ok v rest => some (.values s (some rest) v)
   | _ => none
+
+/-- `clone()`: `none` = NULL (the polynomial generator has no clone).  The linear and factor generators copy
+    their parameter block into a new default object; the boundary generator and the value list make a new
+    object through their public creator and transfer the position (and current value) afterwards. -/
+def Gen.clone : Gen → Option Gen
+  | g@(.linear ..) => some g
+  | g@(.factor ..) => some g
+  | .boundary l i r elem pos =>
+    match mkBoundary elem l i r with
+    | some (.boundary l' i' r' e' _) => some (.boundary l' i' r' e' pos)
+    | _ => none
+  | .poly .. => none
+  | .polyN .. => none
+  | .values text next curr =>
+    match mkValues text with
+    | some (.values t' _ _) => some (.values t' next curr)
+    | _ => none
 
 def lowerAll (s : List Char) : List Char := s.map lower
 
